@@ -67,16 +67,16 @@ SortedSeq(S) == IF S = {} THEN <<>>
 
 TRObs ==
     IF beta = 0
-    THEN {[branch |-> "Skip", fitted |-> clus.fitted, K |-> clus.K, modes |-> <<0>>, modesOK |-> TRUE, wtsOut |-> wts]}
+    THEN {[branch |-> "Skip", fitted |-> clus.fitted, K |-> clus.K, modes |-> <<0>>, modesOK |-> TRUE, wtsOut |-> wts, modelStable |-> TRUE]}
     ELSE IF ~cfg.clustering
-    THEN {[branch |-> "Global", fitted |-> FALSE, K |-> 0, modes |-> <<0>>, modesOK |-> TRUE, wtsOut |-> wts]}
+    THEN {[branch |-> "Global", fitted |-> FALSE, K |-> 0, modes |-> <<0>>, modesOK |-> TRUE, wtsOut |-> wts, modelStable |-> TRUE]}
     ELSE LET refit == (iter % cfg.clusterEvery = 0) \/ (ImplVariant # "unfitted" /\ ~clus.fitted)
              Ks    == IF refit THEN 1..(IF cfg.cap > 0 THEN cfg.cap ELSE 2) ELSE {clus.K}
          IN  UNION {{[branch |-> IF refit THEN "Fit" ELSE "PredictOnly",
                       fitted |-> IF refit THEN TRUE ELSE clus.fitted,
                       K |-> k,
                       modes |-> IF ImplVariant = "rankmodes" THEN SortedSeq(L) ELSE Iota(k),
-                      modesOK |-> TRUE, wtsOut |-> wts]
+                      modesOK |-> TRUE, wtsOut |-> wts, modelStable |-> TRUE]
                         : L \in IF ImplVariant = "rankmodes" THEN (SUBSET (0..(k - 1))) \ {{}} ELSE {{}}}
                     : k \in Ks}
 
